@@ -188,9 +188,22 @@ Definition range_default : range := mkRange (mkPos 0 0) (mkPos 0 0).
 Definition new_range (a b : range) : range := mkRange (rstart a) (rend b).      (* create_new_range *)
 Definition first_range (i : input) : range :=
   match i with t :: _ => trange t | [] => range_default end.
+(* `i.first()` with an explicit fall-back range for the empty slice *)
+Definition range_or (i : input) (fb : range) : range :=
+  match i with t :: _ => trange t | [] => fb end.
+(* `i.last()`: the default range only for the empty slice *)
+Definition last_tok_range (i : input) : range :=
+  match i with t :: l => trange (last l t) | [] => range_default end.
+(* where the recovering loops report an item error `e` of the iteration input `i`
+   (`e.input.first().or(next.last())`): at the error position, and for an error at the very END of
+   the input at the last token the item parser was given; `i` is never empty at the call sites *)
+Definition err_range (i e : input) : range :=
+  match e with t :: _ => trange t | [] => last_tok_range i end.
 
-(* _parse_seperated_list_recursive_w_context: a failing item is reported and skipped *)
-Fixpoint sep_list_rec (fuel : nat) {A} (p : P A) (sep : ttype) (acc : list A) : P (list A) :=
+(* _parse_seperated_list_recursive_w_context: a failing item is reported and skipped.
+   `prev` is the separator in front of `i`: an item missing at the very end of the input
+   (`i` empty) is reported there *)
+Fixpoint sep_list_rec (fuel : nat) {A} (p : P A) (sep : ttype) (prev : tok) (acc : list A) : P (list A) :=
   fun i c =>
     match fuel with
     | O => (NoFuel, c)
@@ -199,8 +212,8 @@ Fixpoint sep_list_rec (fuel : nat) {A} (p : P A) (sep : ttype) (acc : list A) : 
           match p i c with
           | (Ok r a, c1) => (Ok r (a :: acc), c1)
           | (Err e m, c1) =>
-              let start := first_range i in
-              let end_ := match e with t :: _ => trange t | [] => first_range i end in
+              let start := range_or i (trange prev) in
+              let end_ := range_or e start in
               (Ok e acc, add_diag (mkDiag (new_range start end_) m) c1)
           | (Panic s, c1) => (Panic s, c1)
           | (NoFuel, c1) => (NoFuel, c1)
@@ -208,7 +221,7 @@ Fixpoint sep_list_rec (fuel : nat) {A} (p : P A) (sep : ttype) (acc : list A) : 
         match after with
         | (Ok r acc', c1) =>
             match exp_token sep r c1 with
-            | (Ok r2 _, c2) => sep_list_rec f p sep acc' r2 c2
+            | (Ok r2 st, c2) => sep_list_rec f p sep st acc' r2 c2
             | (Err e _, c2) => (Ok e (rev acc'), c2)
             | (Panic s, c2) => (Panic s, c2)
             | (NoFuel, c2) => (NoFuel, c2)
@@ -225,7 +238,7 @@ Definition sep_list {A} (p : P A) (sep : ttype) : P (list A) :=
     match p i c with
     | (Ok r a, c1) =>
         match exp_token sep r c1 with
-        | (Ok r2 _, c2) => sep_list_rec (S (length r2)) p sep [a] r2 c2
+        | (Ok r2 st, c2) => sep_list_rec (S (length r2)) p sep st [a] r2 c2
         | (Err e _, c2) => (Ok e [a], c2)
         | (Panic s, c2) => (Panic s, c2)
         | (NoFuel, c2) => (NoFuel, c2)
@@ -235,11 +248,11 @@ Definition sep_list {A} (p : P A) (sep : ttype) : P (list A) :=
     | (NoFuel, c1) => (NoFuel, c1)
     end.
 
-(* error recovery shared by the loops: report at the error position, skip one token when the
-   failing parser did not move *)
+(* error recovery shared by the loops: report at the error position (err_range), skip one token
+   when the failing parser did not move *)
 Definition skip_after_error (next e : input) : input :=
   if ilen e =? ilen next then tl e else e.
-Definition diag_at (e : input) (m : str) : pdiag := mkDiag (first_range e) m.
+Definition diag_at (i e : input) (m : str) : pdiag := mkDiag (err_range i e) m.
 
 (* parse_repeat_w_context *)
 Fixpoint repeat_go (fuel : nat) {A} (p : P A) (acc : list A) : P (list A) :=
@@ -252,7 +265,7 @@ Fixpoint repeat_go (fuel : nat) {A} (p : P A) (acc : list A) : P (list A) :=
         | _ =>
             match p i c with
             | (Ok r a, c1) => repeat_go f p (a :: acc) r c1
-            | (Err e m, c1) => repeat_go f p acc (skip_after_error i e) (add_diag (diag_at e m) c1)
+            | (Err e m, c1) => repeat_go f p acc (skip_after_error i e) (add_diag (diag_at i e m) c1)
             | (Panic s, c1) => (Panic s, c1)
             | (NoFuel, c1) => (NoFuel, c1)
             end
@@ -275,7 +288,7 @@ Fixpoint until_go (fuel : nat) {A} (stop : P tok) (p : P A) (acc : list A) : P (
             | (Err _ _, c0) =>
                 match p i c0 with
                 | (Ok r a, c1) => until_go f stop p (a :: acc) r c1
-                | (Err e m, c1) => until_go f stop p acc (skip_after_error i e) (add_diag (diag_at e m) c1)
+                | (Err e m, c1) => until_go f stop p acc (skip_after_error i e) (add_diag (diag_at i e m) c1)
                 | (Panic s, c1) => (Panic s, c1)
                 | (NoFuel, c1) => (NoFuel, c1)
                 end
@@ -363,4 +376,96 @@ Definition memo_ok_only (k : N) (p : P node) : P node :=
         | Ok _ _ => (r, set_cache k n r c1)
         | _ => (r, c1)
         end
+    end.
+
+(* ---- the error recovery as it was before the repair of finding eof-diagnostic-at-origin
+   (tools/c09_proposed_fix.diff): an error at the very end of the input was reported with
+   Range::default().  Kept only for the regression theorems of Properties/C09.v. ---- *)
+Definition diag_at_old (e : input) (m : str) : pdiag := mkDiag (first_range e) m.
+
+Fixpoint repeat_go_old (fuel : nat) {A} (p : P A) (acc : list A) : P (list A) :=
+  fun i c =>
+    match fuel with
+    | O => (NoFuel, c)
+    | S f =>
+        match i with
+        | [] => (Ok i (rev acc), c)
+        | _ =>
+            match p i c with
+            | (Ok r a, c1) => repeat_go_old f p (a :: acc) r c1
+            | (Err e m, c1) => repeat_go_old f p acc (skip_after_error i e) (add_diag (diag_at_old e m) c1)
+            | (Panic s, c1) => (Panic s, c1)
+            | (NoFuel, c1) => (NoFuel, c1)
+            end
+        end
+    end.
+Definition repeat_w_ctx_old {A} (p : P A) : P (list A) :=
+  fun i c => repeat_go_old (S (length i)) p [] i c.
+
+Fixpoint until_go_old (fuel : nat) {A} (stop : P tok) (p : P A) (acc : list A) : P (list A * option tok) :=
+  fun i c =>
+    match fuel with
+    | O => (NoFuel, c)
+    | S f =>
+        match i with
+        | [] => (Ok i (rev acc, None), c)
+        | _ =>
+            match stop i c with
+            | (Ok r t, c0) => (Ok r (rev acc, Some t), c0)
+            | (Err _ _, c0) =>
+                match p i c0 with
+                | (Ok r a, c1) => until_go_old f stop p (a :: acc) r c1
+                | (Err e m, c1) => until_go_old f stop p acc (skip_after_error i e) (add_diag (diag_at_old e m) c1)
+                | (Panic s, c1) => (Panic s, c1)
+                | (NoFuel, c1) => (NoFuel, c1)
+                end
+            | (Panic s, c0) => (Panic s, c0)
+            | (NoFuel, c0) => (NoFuel, c0)
+            end
+        end
+    end.
+Definition until_w_ctx_old {A} (stop : P tok) (p : P A) : P (list A * option tok) :=
+  fun i c => until_go_old (S (length i)) stop p [] i c.
+
+Fixpoint sep_list_rec_old (fuel : nat) {A} (p : P A) (sep : ttype) (acc : list A) : P (list A) :=
+  fun i c =>
+    match fuel with
+    | O => (NoFuel, c)
+    | S f =>
+        let after :=
+          match p i c with
+          | (Ok r a, c1) => (Ok r (a :: acc), c1)
+          | (Err e m, c1) =>
+              let start := first_range i in
+              let end_ := match e with t :: _ => trange t | [] => first_range i end in
+              (Ok e acc, add_diag (mkDiag (new_range start end_) m) c1)
+          | (Panic s, c1) => (Panic s, c1)
+          | (NoFuel, c1) => (NoFuel, c1)
+          end in
+        match after with
+        | (Ok r acc', c1) =>
+            match exp_token sep r c1 with
+            | (Ok r2 _, c2) => sep_list_rec_old f p sep acc' r2 c2
+            | (Err e _, c2) => (Ok e (rev acc'), c2)
+            | (Panic s, c2) => (Panic s, c2)
+            | (NoFuel, c2) => (NoFuel, c2)
+            end
+        | (Err e m, c1) => (Err e m, c1)
+        | (Panic s, c1) => (Panic s, c1)
+        | (NoFuel, c1) => (NoFuel, c1)
+        end
+    end.
+Definition sep_list_old {A} (p : P A) (sep : ttype) : P (list A) :=
+  fun i c =>
+    match p i c with
+    | (Ok r a, c1) =>
+        match exp_token sep r c1 with
+        | (Ok r2 _, c2) => sep_list_rec_old (S (length r2)) p sep [a] r2 c2
+        | (Err e _, c2) => (Ok e [a], c2)
+        | (Panic s, c2) => (Panic s, c2)
+        | (NoFuel, c2) => (NoFuel, c2)
+        end
+    | (Err e _, c1) => (Ok e [], c1)
+    | (Panic s, c1) => (Panic s, c1)
+    | (NoFuel, c1) => (NoFuel, c1)
     end.
